@@ -217,19 +217,25 @@ def gen_offset_emb(rng, n):
 
 
 # ----------------------------------------------------------------------------- wave 4: wide dynamic range
-WIDE_RATIOS = [Fraction(1, 3), Fraction(1, 10), Fraction(1, 10 ** 4), Fraction(3, 10 ** 5), Fraction(1, 10 ** 5),
-               Fraction(1, 10 ** 6), Fraction(1, 10 ** 7)]
+WIDE_RATIOS = [Fraction(1, 10 ** 4), Fraction(3, 10 ** 5), Fraction(1, 10 ** 5), Fraction(1, 10 ** 6), Fraction(1, 10 ** 7)]
+MILD_RATIOS = [Fraction(1, 3), Fraction(1, 10)]
 
 
-def wide_profile(rng, D):
-    """principal standard deviations 1 = s_0 > s_1 > ... : consecutive ratios out of 1/3, 1/10, 1e-4, 3e-5, 1e-5, 1e-6,
-    1e-7, at least one of them <= 1e-4, the whole span >= 1e-7 (variances down to 1e-14 of the largest): every
-    principal variance is genuine and non-degenerate, none is 'numerically zero' in the relative sense"""
+def wide_profile(rng, D, g, second=False):
+    """principal standard deviations 1 = s_0 > s_1 > ... > s_(D-1): a WIDE ratio (1e-4, 3e-5, 1e-5, 1e-6 or 1e-7) between
+    s_(g-1) and s_g, mild ratios (1/3, 1/10) elsewhere (`second`: one more wide ratio at a random place when the whole
+    span stays >= 1e-7, i.e. variances down to 1e-14 of the largest).  Every principal variance is genuine and
+    non-degenerate: none is 'numerically zero' in the relative sense, and the directions g .. D-1 are separated from
+    each other by factors 9 .. 100 in variance although all of them are 1e-8 .. 1e-14 of the largest."""
     while True:
+        ratios = [rng.choice(MILD_RATIOS) for _ in range(D - 1)]
+        ratios[g - 1] = rng.choice(WIDE_RATIOS)
+        if second and D > 2:
+            ratios[rng.choice([k for k in range(D - 1) if k != g - 1])] = rng.choice(WIDE_RATIOS[:3])
         s = [Fraction(1)]
-        for _ in range(D - 1):
-            s.append(s[-1] * rng.choice(WIDE_RATIOS))
-        if s[-1] >= Fraction(1, 10 ** 7) and any(s[k + 1] * 10 ** 4 <= s[k] for k in range(D - 1)):
+        for r in ratios:
+            s.append(s[-1] * r)
+        if s[-1] >= Fraction(1, 10 ** 8):
             return s
 
 
@@ -246,10 +252,10 @@ def random_frame(rng, D):
     return cols
 
 
-def gen_wide_range(rng, N, D, axis_aligned=False):
+def gen_wide_range(rng, N, D, g, axis_aligned=False, second=False):
     """x = offset + sum_k s_k z_ik q_k: a random orthonormal frame q (or the coordinate axes: features in mixed units),
     z uniform or Gaussian of unit variance, standard deviations s from wide_profile; arbitrary doubles"""
-    s = [float(v) for v in wide_profile(rng, D)]
+    s = [float(v) for v in wide_profile(rng, D, g, second)]
     q = [[1.0 if a == b else 0.0 for b in range(D)] for a in range(D)] if axis_aligned else random_frame(rng, D)
     rng.shuffle(q)
     off = [rng.choice([0.0, rng.uniform(-1, 1), rng.uniform(-1, 1)]) for _ in range(D)]
@@ -262,15 +268,19 @@ def gen_wide_range(rng, N, D, axis_aligned=False):
 
 
 def gen_wide_emb(rng, reps):
-    """PCA(dense) on wide-dynamic-range data at EVERY small D (2, 3, 4, 5) and small target dimensions"""
+    """PCA(dense) on wide-dynamic-range data at EVERY small D (2, 3, 4, 5), the wide gap after the g-th principal
+    direction for EVERY g, and the two target dimensions at which that matters: d = g (the kept / dropped boundary IS
+    the wide gap) and d = g + 1 (the boundary lies INSIDE the block of tiny variances: the last kept and the first
+    dropped direction both carry 1e-8 .. 1e-14 of the total variance, yet differ by a factor 9 .. 100)"""
     cases = []
     for rep in range(reps):
         for D in (2, 3, 4, 5):
-            for d in sorted({1, 2, D - 1}):
-                N = rng.choice([8, 12, 20, 33])
-                X, s = gen_wide_range(rng, N, D, axis_aligned=(rep % 4 == 3))
-                cases.append({"kind": "EMB", "solver": "dense", "N": N, "D": D, "d": min(d, D), "X": X,
-                              "style": "wide-range", "sd_profile": ["%.0e" % v for v in s], "agree": False})
+            for g in range(1, D):
+                for d in (g + 1, g):
+                    N = rng.choice([8, 12, 20, 33])
+                    X, s = gen_wide_range(rng, N, D, g, axis_aligned=(rep % 4 == 3), second=(rep % 2 == 1))
+                    cases.append({"kind": "EMB", "solver": "dense", "N": N, "D": D, "d": d, "X": X,
+                                  "style": "wide-range", "sd_profile": ["%.0e" % v for v in s], "agree": False})
     return cases
 
 
